@@ -111,9 +111,11 @@ func ttTitleText(toks []string, g *docGen, vocab ttVocab) (string, bool) {
 	deco := false
 	if len(toks) >= 3 && g.rng.Intn(6) == 0 {
 		deco = true
+		// an apostrophe - or, as in a time of day or a ratio, a colon - inside a word: neither separates anything
+		inner := pickS(g.rng, "'", "'", ":")
 		for i, tok := range toks {
 			if (tok == "w6" || tok == "w40") && len(parts[i]) > 3 {
-				parts[i] = parts[i][:2] + "'" + parts[i][2:]
+				parts[i] = parts[i][:2] + inner + parts[i][2:]
 				break
 			}
 		}
